@@ -1,3 +1,40 @@
-From Coq Require Import List String.
-Example C17_placeholder : True. Proof. exact I. Qed.
-Print Assumptions C17_placeholder.
+(** C17 — an interrupted attribute write leaves the old or the new data, never a ruin.  Property theorems only.
+    Data/Crash.v: the file-system effects of the (repaired) write = temporary sibling written in any number of chunks,
+    then an atomic replace; a crash = any prefix of that list.  The tie: the harness intercepts pathlib / os in the
+    implementation, injects the crash at each point, compares the real tree with the model tree and reads back. *)
+From Coq Require Import List String Ascii Bool Arith.
+From Spil Require Import Base.Str Base.Dict Base.Outcome Base.PyPath Resolva.Resolver Conf.Conf Conf.Routing Conf.WF Sid.Sid
+  Search.Unfold Search.Finders FS.Fs Data.Data Data.Crash Path.PathProofs Data.DataProofs Data.CrashProofs.
+From SpilGen Require Hamlet.
+Import ListNotations.
+Local Open Scope string_scope.
+
+(* at EVERY crash point the sidecar holds the complete old or the complete new data; nothing else but the temporary file changes *)
+Theorem C17_atomic : forall f dp new chunks n,
+  let f' := crash_at f (write_effects dp new chunks) n in
+  (fs_get f' dp = fs_get f dp \/ fs_get f' dp = Some (File (CJson new))) /\
+  (forall q, q <> dp -> q <> tmp_of dp -> fs_get f' q = fs_get f q).
+Proof. exact crash_atomic. Qed.
+Print Assumptions C17_atomic.
+
+Theorem C17_read_old_or_new : forall f dp new chunks n,
+  let f' := crash_at f (write_effects dp new chunks) n in
+  read_sidecar f' dp = read_sidecar f dp \/ read_sidecar f' dp = Some new.
+Proof. exact crash_read_old_or_new. Qed.
+Print Assumptions C17_read_old_or_new.
+
+(* the write of the pinned tree (truncate the sidecar itself, then write) is refuted: the repaired defect D16 *)
+Theorem C17_in_place_write_refuted : exists f dp new chunks n old,
+  read_sidecar f dp = Some old /\
+  read_sidecar (crash_at f (write_effects_in_place dp new chunks) n) dp <> Some old /\
+  read_sidecar (crash_at f (write_effects_in_place dp new chunks) n) dp <> Some new.
+Proof. exact in_place_write_refuted. Qed.
+Print Assumptions C17_in_place_write_refuted.
+
+(* a sidecar that is unreadable, empty, not valid JSON or a directory reads as "no stored data" (just the sid entry) *)
+Theorem C17_tolerant_read : forall F dp, (forall d, fs_get F dp <> Some (File (CJson d))) -> load_sidecar F dp = [].
+Proof.
+  intros F dp H. unfold load_sidecar. destruct (fs_get F dp) as [[|[|d|]|]|] eqn:E; try reflexivity.
+  exfalso. exact (H d eq_refl).
+Qed.
+Print Assumptions C17_tolerant_read.
